@@ -554,6 +554,7 @@ func (db *Database) performFuzzySearch(query string, options SearchOptions) []Se
 	// Perform fuzzy search
 	matches := fuzzyFindStable(query, targets)
 
+	currentPlatform := getCurrentPlatform()
 	var results []SearchResult
 	for _, match := range matches {
 		if len(results) >= options.Limit {
@@ -562,6 +563,11 @@ func (db *Database) performFuzzySearch(query string, options SearchOptions) []Se
 
 		// Apply fuzzy threshold
 		if options.FuzzyThreshold > 0 && match.Score < options.FuzzyThreshold {
+			continue
+		}
+
+		// The typo fallback obeys the same platform and pipeline filters as the index search
+		if !passesFilters(&db.Commands[match.Index], options, currentPlatform) {
 			continue
 		}
 
